@@ -4,6 +4,8 @@ CONSTANTS NC = 3
   MaxPS = 2
   NoiseKinds <- MCNoiseAll
   ErrKinds <- MCErrAll
+  Segs <- MCSegOwn
+  MaxAcc = 3
   D = 0
 INIT Init
 NEXT Next
@@ -17,4 +19,5 @@ PROPERTY DownExactlyOnce
 PROPERTY PortStatusOrder
 PROPERTY SendReaches
 PROPERTY InHandlerView
+PROPERTY ReadIsSum
 CHECK_DEADLOCK FALSE
